@@ -207,7 +207,9 @@ BX_THOROUGH = [
 
 
 def bx_units(tier):
-    return [BX_SIMPLE] + (BX_THOROUGH if tier == 'thorough' else [])
+    # the 4-data / 3-additions sweep is cheap (about 25 s) and is the only one of the extra sweeps
+    # that sees bugs needing three additions in one close: it runs in the quick tier too
+    return [BX_SIMPLE] + (BX_THOROUGH if tier == 'thorough' else [BX_THOROUGH[3]])
 
 LAYOUT_ASSUME = [
     'simple() and compute_initial_gaps() are outside both verifiers (BTreeMap entry API, stateful filter_map closure, '
